@@ -711,16 +711,27 @@ func ValidateTrace(body []byte, spans []Span) []Finding {
 		id, _ := g["spanId"].(string)
 		have[id] = append(have[id], g)
 	}
+	// a span id may occur in several rows of a trace (the client and server halves of one RPC in Zipkin's shared-span
+	// model): rows are told apart by their start time
+	want := map[string]int{}
+	for _, s := range spans {
+		want[s.SpanID]++
+	}
 	for _, s := range spans {
 		gs := have[s.SpanID]
-		if len(gs) == 0 {
-			out = append(out, Finding{"row-missing", fmt.Sprintf("span %s (payload type %d, name %q) is not in the document", s.SpanID, s.PayloadType, clipS(s.Name, 40))})
+		if len(gs) < want[s.SpanID] {
+			out = append(out, Finding{"row-missing", fmt.Sprintf("span id %s: %d rows stored (payload type %d, name %q), %d spans in the document", s.SpanID, want[s.SpanID], s.PayloadType, clipS(s.Name, 40), len(gs))})
 			continue
 		}
-		if len(gs) > 1 {
-			out = append(out, Finding{"row-duplicated", fmt.Sprintf("span %s appears %d times", s.SpanID, len(gs))})
+		if len(gs) > want[s.SpanID] {
+			out = append(out, Finding{"row-duplicated", fmt.Sprintf("span %s appears %d times, %d rows stored", s.SpanID, len(gs), want[s.SpanID])})
 		}
 		g := gs[0]
+		for _, cand := range gs {
+			if st, _ := numStr(cand["startTimeUnixNano"]); st == strconv.FormatInt(s.TsNs, 10) {
+				g = cand
+			}
+		}
 		if t, _ := g["traceId"].(string); t != s.TraceID {
 			out = append(out, Finding{"string-mismatch", fmt.Sprintf("span %s: traceId %q, stored %q", s.SpanID, t, s.TraceID)})
 		}
